@@ -34,3 +34,19 @@ Definition ex_subprogram : forest :=
    (1, [Decl (Some ex_body) (Some ex_pb) (Some ex_pe) 16;
         WithPos (mkSrcPos 1 (mkPos 5 4) (mkPos 5 20))
           [WithPos (mkSrcPos 1 (mkPos 5 11) (mkPos 5 14)) [Ref (mkSrcPos 1 (mkPos 5 11) (mkPos 5 14)) (Some ex_decl) []]]])].
+
+(* generic package: function declaration D, body B (DeclaredBy D) with end designator and a use inside
+   the body; a use through a package instance resolves to I (InstanceOf D) in another file *)
+Definition ex_gd : ent := Ent 20 RelNone.
+Definition ex_gb : ent := Ent 21 (DeclaredBy ex_gd).
+Definition ex_gi : ent := Ent 22 (InstanceOf ex_gd).
+Definition ex_g_pd : srcpos := mkSrcPos 0 (mkPos 2 11) (mkPos 2 15).
+Definition ex_g_pb : srcpos := mkSrcPos 0 (mkPos 6 11) (mkPos 6 15).
+Definition ex_g_pe : srcpos := mkSrcPos 0 (mkPos 9 15) (mkPos 9 19).
+Definition ex_g_in : srcpos := mkSrcPos 0 (mkPos 8 11) (mkPos 8 15).
+Definition ex_g_use : srcpos := mkSrcPos 1 (mkPos 4 30) (mkPos 4 34).
+Definition ex_generic : forest :=
+  [(0, [Decl (Some ex_gd) (Some ex_g_pd) None 14]);
+   (0, [Decl (Some ex_gb) (Some ex_g_pb) (Some ex_g_pe) 16;
+        WithPos (mkSrcPos 0 (mkPos 8 11) (mkPos 8 18)) [Ref ex_g_in (Some ex_gd) []]]);
+   (1, [WithPos (mkSrcPos 1 (mkPos 4 25) (mkPos 4 37)) [Ref ex_g_use (Some ex_gi) []]])].
